@@ -527,25 +527,30 @@ func (in *Interp) fpBits(f *Term) *Term {
 // ---- atomics ----
 
 func atomicLoad(in *Interp, fr *frame, fn *ssa.Function, a []Value) Value {
+	in.schedPoint(fr)
 	return in.load(fr, a[0].(Ptr))
 }
 func atomicStore(in *Interp, fr *frame, fn *ssa.Function, a []Value) Value {
+	in.schedPoint(fr)
 	in.store(fr, a[0], a[1])
 	return nil
 }
 func atomicAdd(in *Interp, fr *frame, fn *ssa.Function, a []Value) Value {
+	in.schedPoint(fr)
 	p := a[0].(Ptr)
 	nv := in.tt.BinBV(OAdd, in.load(fr, p).(*Term), a[1].(*Term))
 	in.store(fr, p, nv)
 	return nv
 }
 func atomicSwap(in *Interp, fr *frame, fn *ssa.Function, a []Value) Value {
+	in.schedPoint(fr)
 	p := a[0].(Ptr)
 	old := in.load(fr, p)
 	in.store(fr, p, a[1])
 	return old
 }
 func atomicCAS(in *Interp, fr *frame, fn *ssa.Function, a []Value) Value {
+	in.schedPoint(fr)
 	p := a[0].(Ptr)
 	old := in.load(fr, p)
 	var eq *Term
